@@ -40,7 +40,7 @@ CHECKS = {
          "For every unrounded second of the day (incl. negative and >= 24 h intermediate hours) each mode's output is the table value; validity and flags unaffected; moves < 60 s.",
          "Unrounded h:m:s read from the library's own None mode and bound separately to base + offset.", "3/C11"),
  "C12": (G, "exploration", "bounded exhaustive enumeration of call pairs differing in exactly one parameter, iterated by deviation count (bases at the method defaults, then bases deviating in one parameter)",
-         "On the lattice every single-parameter perturbation (42 offsets, 12 intervals, school, +-1 deg angles, 5 weather points) moves exactly the documented entries by exactly the documented amount and nothing else.",
+         "On the lattice every single-parameter perturbation (42 offsets, 18 intervals incl. the code's own constants 0.5 and 1.5, school, +-1 deg angles, 5 weather points; 4 policies incl. the all-prayers nearest-good-day one) moves exactly the documented entries by exactly the documented amount and nothing else.",
          "Angle/school/weather locality under the default policy only on fallback-free dates.", "3/C12"),
  "C13": (G, "exploration", "exhaustive enumeration of every run of three consecutive dates 1600-2399 per site/method",
          "No consecutive-date triple on the lattice exceeds the stated second-difference bounds or a 4-minute day-to-day step.",
@@ -111,7 +111,7 @@ manifest = {
     ],
     "checks": checks,
     "not_applicable": not_app,
-    "notes": "Exit codes: 0 held, 1 violation (VIOLATION line), >=2 machinery failure. Known findings: /verif/KNOWN_FINDINGS.txt (currently only fixed: lines - nine repaired defects). Seeded detection demonstrations: /verif/seeded/ (217 property-breaking changes in six rounds); false-alarm probes: /verif/refactorings/ (16 behaviour-preserving refactorings).",
+    "notes": "Exit codes: 0 held, 1 violation (VIOLATION line), >=2 machinery failure. Known findings: /verif/KNOWN_FINDINGS.txt (currently only fixed: lines - nine repaired defects). Seeded detection demonstrations: /verif/seeded/ (239 property-breaking changes in seven rounds; one of them, C20-m14, is reported by no check - DESIGN.md section 7); false-alarm probes: /verif/refactorings/ (16 behaviour-preserving refactorings).",
 }
 json.dump(manifest, open(os.path.join(V, "MANIFEST.json"), "w"), indent=1)
 print("wrote MANIFEST.json with", len(checks), "checks;", len(not_app), "not yet claimed")
